@@ -177,11 +177,12 @@ def c08(tier):
             w_h('VHarnessWalletMintThenSend', 'holding one deterministic proof of 8 (stored with DLEQ e,s,r): send 1..5 through a swap', must_reach=('sent',)),
             w_h('VHarnessWalletMelt', 'melt: 1..2 held proofs with/without stored DLEQ data, each payment outcome', must_reach=('melt-outcome-0',))]
 def c17(tier):
-    more = [w_h('VHarnessSendC17Fees', 'send: 1..2 held proofs of 2^0..2^3 on the active / inactive keyset with independent fees from {0,100,1000}, amount symbolic, fees included or not: conservation and exact fee payment', must_reach=('sent', 'send-failed'))] if tier == 'thorough' else []
+    more = [w_h('VHarnessWalletMeltLostWide', 'as VHarnessWalletMeltLost with amount 1..6 and reserve 0..2', must_reach=('lost-melt-reconciled', 'lost-melt-retried', 'melt-resolved'), timeout_s=3000),
+            w_h('VHarnessSendC17Fees', 'send: 1..2 held proofs of 2^0..2^3 on the active / inactive keyset with independent fees from {0,100,1000}, amount symbolic, fees included or not: conservation and exact fee payment', must_reach=('sent', 'send-failed'))] if tier == 'thorough' else []
     return more + [w_h('VHarnessSendC17', 'send: 1..2 held proofs of 2^0..2^2 on the active / inactive keyset, 100 ppk on both, amount symbolic, fees included or not: conservation and exact fee payment', must_reach=('sent', 'send-failed')),
             w_h('VHarnessWalletReceive', 'receive a token of the own mint: 1..2 proofs of 2^0..2^3, ppk in {0,100,1000}, stored counter symbolic < 2^30', must_reach=('received', 'receive-failed')),
             w_h('VHarnessWalletReclaim', 'reclaim / remove-spent: 1..2 pending proofs of 2^0..2^2, each handed out or locked in a melt, each UNSPENT / SPENT / PENDING at the mint, ppk in {0,1000}', must_reach=('reconciled-0', 'reconciled-1')),
-            w_h('VHarnessWalletMeltLost', 'melt: 1..2 held proofs of 2^0..2^2, amount 1..6, reserve 0..1, ppk in {0,1000}, outcome paid/pending/failed, pending then settled either way; with or without a transport fault on POST /v1/melt/bolt11 (request lost before the mint saw it / response lost after the mint acted, each payment outcome), then a state check and, if still unpaid, a retry', must_reach=('lost-melt-reconciled', 'lost-melt-retried', 'melt-outcome-0', 'melt-outcome-1', 'melt-outcome-2', 'melt-resolved')),
+            w_h('VHarnessWalletMeltLost', 'melt: 1..2 held proofs of 2^0..2^2, amount 1..4, reserve 0..1 of which the payment uses any part (the rest comes back as NUT-08 change), ppk in {0,1000}, outcome paid/pending/failed, pending then settled either way; with or without a transport fault on POST /v1/melt/bolt11 (request lost before the mint saw it / response lost after the mint acted, each payment outcome), then a state check and, if still unpaid, a retry', must_reach=('lost-melt-reconciled', 'lost-melt-retried', 'melt-outcome-0', 'melt-outcome-1', 'melt-outcome-2', 'melt-resolved')),
             w_h('VHarnessWalletMint', 'mint tokens', must_reach=('minted',)),
             w_h('VHarnessWalletMintThenSend', 'holding one deterministic proof of 8: send 1..5 through a swap', must_reach=('sent',))]
 def c20(tier):
